@@ -78,6 +78,7 @@ namespace GoVal
 /-- `values.ToLiquid`: one level only, exactly as the code does (a drop yielding a drop stays a drop) -/
 def toLiquid : GoVal → GoVal
   | .drop v => v
+  | .ptr (.drop v) => v      -- the method set of *T includes T's ToLiquid
   | v => v
 
 /-- generic `[]any` -/
